@@ -17,7 +17,7 @@ from checks import c20, c21
 
 ARCHS = ["x86_32", "x86_64", "arml", "aarch64l", "mips32l", "ppc32b", "msp430"]
 FUNCS = ["arr_loop", "loop_cond", "nested", "switch4"]
-STEP_LIMIT = 6000
+STEP_LIMIT = 4000
 
 
 # ---------------------------------------------------------------------------------------------
